@@ -95,6 +95,22 @@ Proof. constructor; [constructor|intros e []]. Qed.
 Lemma key_ok_not_any k : key_ok k -> k <> ANY.
 Proof. intros H E. subst k. unfold key_ok in H. rewrite contains_any_ANY in H. discriminate. Qed.
 
+(* the three kinds of entries of a well-shaped mapping *)
+Lemma WS_entry m k v : WS m -> In (k, v) m ->
+  (exists n, v = Scalar n /\ key_ok k) \/
+  (exists s, v = Mapping [(ANY, Mapping s)] /\ key_ok k /\ WS s /\ denm s <> []) \/
+  (exists s, k = ANY /\ v = Mapping s /\ WS s /\ denm s <> []).
+Proof.
+  intros W H. inversion W as [? _ F]; subst. specialize (F _ H).
+  inversion F as [k' n K|k' s K Ws Ds|s Ws Ds]; subst.
+  - left. exists n. split; [reflexivity|exact K].
+  - right. left. exists s. split; [reflexivity|]. split; [exact K|]. split; [exact Ws|exact Ds].
+  - right. right. exists s. split; [reflexivity|]. split; [reflexivity|]. split; [exact Ws|exact Ds].
+Qed.
+
+Lemma WS_nodup m : WS m -> NoDup (map fst m).
+Proof. intros W. inversion W; assumption. Qed.
+
 (* ---- association lists ---- *)
 Lemma m_get_in k v m : m_get k m = Some v -> In (k, v) m.
 Proof.
